@@ -263,7 +263,11 @@ pub fn check_take_while(seq: &[u8], threshold: u8) -> CaseResult {
                 n4 <= limit
             })
             .fold(0usize, |a, _| a + 1);
-        let stateful_ok = counted == seq[..kc] && rest3 == seq[kc..] && folded4 == kc;
+        // a short prefix of a source that is far too long to hold: what the adaptor promises about its length must
+        // not make a collection reserve for the whole source
+        let huge: Vec<u64> = (0..u64::MAX).peekable().take_while_p(|x| *x < limit as u64).collect();
+        let endless: String = std::iter::repeat('a').enumerate().map(|(i, ch)| if i < limit { ch } else { 'b' }).peekable().take_while_p(|ch| *ch == 'a').collect();
+        let stateful_ok = counted == seq[..kc] && rest3 == seq[kc..] && folded4 == kc && huge.len() == limit && endless.len() == limit;
         if !stateful_ok {
             return (false, counted, rest3);
         }
